@@ -16,7 +16,7 @@ import (
 
 // C08 - Markdown output keeps GFM table structure and neutralises cell content.
 
-const c08Fam = gen.FAscii | gen.FMD | gen.FHTML | gen.FNewline | gen.FWide | gen.FCSV | gen.FEmoji | gen.FCombining
+const c08Fam = gen.FAscii | gen.FMD | gen.FHTML | gen.FNewline | gen.FWide | gen.FCSV | gen.FEmoji | gen.FCombining | gen.FEdge
 
 // alignment assignment: 0 unset, 1 left, 2 right, 3 centre
 var alignVals = []align.Alignment{nil, align.Left, align.Right, align.Center}
